@@ -109,6 +109,11 @@ def run(ctx, rep):
     rep.rule("R9.9", "the tolerance / target used by the stop tests is the one the selection of the returned point uses: one option key per value (see C19 R19.9)")
     from . import c19 as _c19
     _c19.r199(ctx, Renamed(rep, to="R9.9"), m_, _c19.enum_tables(ctx), rule="R9.9")
+    rep.rule("R9.10", "the returned point satisfies the request that ended the run: the selection uses the same inclusive feasibility test as the stop tests and the penalty in force (see C03 R3.2, R3.4)")
+    from . import c03 as _c03
+    _c03.r32(ctx, Renamed(rep, to="R9.10"))
+    if _c03.check_penalty_forwarding(ctx, Renamed(rep, to="R9.10"), "R9.10") < 2:
+        raise AnalysisError("evaluation call sites with a penalty argument not found")
     rep.rule("R9.8", "nfev at a stop is the index of the triggering evaluation: the counter counts every evaluation (see C05 R5.2)")
     from . import c05 as _c05
     _c05.r52(ctx, Renamed(rep, to="R9.8"))
